@@ -803,6 +803,38 @@ func sendCommands(e *Env) {
 		l.ChunkMode = g.Intn(4)
 		l.Window = []int{0, 0, 100, 1000}[g.Intn(4)]
 	})
+	// an application that starts talking before it has connected for the first
+	// time: whatever becomes of those calls (the library lets them wait for
+	// ever), nothing but whole single commands of their own verb may come of them
+	isEarly := func(ln string) bool {
+		// (a task may also get its first turn after the connection is up: its call
+		// is then an ordinary one; a text that starts with a line break leaves
+		// just the verb and the target)
+		return strings.HasPrefix(ln, "PRIVMSG #early") || strings.HasPrefix(ln, "NOTICE #early") || strings.HasPrefix(ln, "EARLY") || strings.HasPrefix(ln, "TOPIC #early")
+	}
+	if !c11 && g.Pct(15) {
+		e.S.Count("fault.commands-called-before-the-first-connect")
+		for k := g.Range(1, 4); k > 0; k-- {
+			text := hostilePool[g.Intn(len(hostilePool))] + g.Str(alnum, 0, 6) + hostilePool[g.Intn(len(hostilePool))]
+			if g.Pct(30) {
+				text = splitText(g, 450, true)
+			}
+			kind := g.Intn(4)
+			e.S.Spawn(fmt.Sprintf("early-caller%d", k), func() {
+				switch kind {
+				case 0:
+					s.c.Privmsg("#early", text)
+				case 1:
+					s.c.Notice("#early", text)
+				case 2:
+					s.c.Raw("EARLY " + text)
+				default:
+					s.c.Topic("#early", text)
+				}
+			})
+		}
+		simrt.Sleep(time.Duration(g.Intn(3)) * time.Second)
+	}
 	if !s.connect() {
 		return
 	}
@@ -948,7 +980,7 @@ func sendCommands(e *Env) {
 				pos++
 				break
 			}
-			if strings.HasPrefix(ln, "NOISE ") || autoPong[ln] || isTalk(ln) {
+			if strings.HasPrefix(ln, "NOISE ") || autoPong[ln] || isTalk(ln) || isEarly(ln) {
 				continue
 			}
 			mine = append(mine, ln)
